@@ -43,6 +43,7 @@ func H_C05_Sched() {
 		case 3:
 			h.autoSched = false
 			h.runPending()
+			h.db.compactedMaxSizeBytes = h.chooseMaxSize(vrt.K("maxsize", s))
 			h.compactionCycle()
 			h.autoSched = true
 		}
